@@ -474,3 +474,46 @@ def r02i(ctx, rep, which):
                     rep.holds('R02i', g, 'checksum use', 'same convention as replay')
         if n == 0:
             rep.holds('R02i', op, '%s open path' % w, 'no checksum computation outside replay (replay convention: stored != 0 = %s)' % convention)
+
+
+def r02j(ctx, rep, which):
+    """a replaced writer is flushed first."""
+    rep.rule('R02j', 'a log writer is emptied before it is replaced: in every WAL method that assigns a new buffered writer to the WAL\'s '
+                     'writer field (truncate, rotate), the assignment is unreachable from the entry once the Ok edges of flush() on that '
+                     'field are cut. The old BufWriter is dropped by the assignment and flushes whatever it still holds through its old '
+                     'handle — which, after File::create on the same path, writes stale records into the fresh log: replay then finds a '
+                     'stale checkpoint marker or garbage in front of the records acknowledged afterwards')
+    for w in which:
+        spec = WALS[w]
+        cr = ctx.crate(spec['crate'])
+        st = spec['struct']
+        n = 0
+        for name, f in sorted(cr.fns.items()):
+            if not re.sub(r'::<[^>]*>', '', name).startswith(st + '::') or '{closure' in name:
+                continue
+            ws = [x for x in A.field_writes(f) if x[2] in (st + '.file', st + '.writer') and x[3][1] and x[3][1][-1] == x[2]]
+            if not ws:
+                continue
+            defs, uses = A.Defs(f), A.Uses(f)
+            cut = set()
+            for c in A.calls(f):
+                if not re.search(r'(^|::)flush$|Write>?::flush$', c.resolved) and not re.search(r'Write>?::flush$', c.generic):
+                    continue
+                a = c.arg_local(0)
+                if a is None:
+                    continue
+                fs, _ = A.origin_fields(f, a, defs)
+                fs = A.place_fields(c.args[0][1]) + fs
+                if any(x in (st + '.file', st + '.writer') for x in fs):
+                    cut |= set(A.call_outcome(f, c, uses).ok) or {(c.bb, c.target)}
+            for k, x in enumerate(ws):
+                n += 1
+                rep.analysed(f)
+                R = A.reachable(f, [0], cut_edges=cut) if cut else set(range(len(f.bbs)))
+                if x[0] in R:
+                    rep.violation('R02j', f, 'writer-replaced-unflushed', f.loc(x[5]),
+                                  'the WAL\'s buffered writer is replaced on a path that has not flushed it: its pending bytes are written '
+                                  'by the drop, after the file was re-created, into the log that is supposed to be empty')
+                else:
+                    rep.holds('R02j', f, 'writer replacement#%d' % k, 'flush() Ok is must-pass')
+        rep.floor('R02j', '%s writer replacements' % w, n, 1)
